@@ -137,16 +137,27 @@ def run(ctx):
         for (a_, nm) in ((x, "first"), (y, "second")):
             g_ = paths.guarded(add, n_, lambda f, c, pol, a_=a_: paths.rel(f, c, pol, subst=False) == ("%s->zero" % lm, "<", a_))
             ctx.check(r3, g_, key(add, "zero-before-table:%s" % nm), add.where(n_), "the difference is computed without a dominating test that the %s argument is above log-zero: zero + zero (and anything within the table's length of zero) is then looked up in the table instead of returning the other argument" % nm)
-    # branches
-    pairs = {}
-    for s in paths.stores(add):
-        if s["path"] in ("d", "r") and s["rhs"] is not None:
-            gx = paths.guarded(add, s["node"], lambda f, c, pol: paths.rel(f, c, pol, subst=False) == (y, "<", x))
-            gy = paths.guarded(add, s["node"], lambda f, c, pol: paths.rel(f, c, pol, subst=False) in ((x, "<=", y),))
-            br = "x>y" if gx else ("x<=y" if gy else "?")
-            pairs.setdefault(br, {})[s["path"]] = add.canon(s["rhs"], subst=False)
-    want = {"x>y": {"d": "(%s - %s)" % (x, y), "r": x}, "x<=y": {"d": "(%s - %s)" % (y, x), "r": y}}
-    ctx.check(r3, pairs == want, key(add, "branches"), add.where(add.root), "difference / larger-argument selection is %s, expected %s" % (pairs, want), str(pairs))
+    # the larger argument and the difference, path by path over values (symx.run_paths): two-armed if,
+    # conditional expressions or a swap of the operands read alike
+    from .. import symx, lin
+    okbr, nbr = True, 0
+    got = set()
+    for pt in symx.run_paths(add, P):
+        d_, r_ = pt.stored("d"), pt.stored("r")
+        if d_ is None or r_ is None:
+            continue
+        nbr += 1
+        lt_xy, lt_yx = pt.atoms.get(("<", x, y)), pt.atoms.get(("<", y, x))
+        if lt_xy is True or (lt_xy is None and lt_yx is False):
+            big, small = y, x
+        elif lt_yx is True or (lt_yx is None and lt_xy is False):
+            big, small = x, y
+        else:
+            okbr = False
+            continue
+        got.add((big, lin.p_str(r_), lin.p_str(d_)))
+        okbr = okbr and r_ == lin.p_atom(big) and d_ == lin.p_add(lin.p_atom(big), lin.p_atom(small), -1)
+    ctx.check(r3, okbr and len(set(g_[0] for g_ in got)) == 2, key(add, "branches"), add.where(add.root), "difference / larger-argument selection is %s: expected r = the larger argument and d = larger - smaller in both orders" % sorted(got), str(sorted(got)))
 
     # ---- monotone ---------------------------------------------------------------------------
     r4 = ctx.rule("ORDER.monotone", "every value logmath_add returns after the zero tests is r or r plus an unsigned table entry, r being the larger argument; the exact fallback is used only without a table", floor=5)
